@@ -84,11 +84,12 @@ def v_hparams_passthrough(p):
               args = n.args
               if name in [x.arg for x in args.args + args.kwonlyargs + args.posonlyargs]:
                 is_param = True
-                break
               if isinstance(n, ast.FunctionDef) and any(
                   isinstance(t, ast.Name) and t.id == name for st in ast.walk(n) if isinstance(st, (ast.Assign, ast.AugAssign, ast.AnnAssign))
                   for t in (st.targets if isinstance(st, ast.Assign) else [st.target])):
                 rebound = True
+              if is_param:
+                break
           ok = is_param and not rebound
         if not ok:
           bad.append(f'{rel}:{c.lineno} {ast.unparse(c)[:80]}')
